@@ -41,7 +41,7 @@ template <class T, bool = (std::is_empty_v<T> && !std::is_final_v<T>)>
 class EmptyBaseOptimization
 {
   private:
-    T value_;
+    T value_{};
 
   public:
     EmptyBaseOptimization() = default;
